@@ -470,7 +470,7 @@ def n5_sizes(quick, li):
     """Sizes of the S5-part for lower part number li (0 = nothing, 1 = everything <= 4)."""
     if quick:
         return (1,)
-    return (1, 2, 118, 119, 120) if li < 2 else (1, 119, 120)
+    return (1, 2, 119, 120) if li == 0 else (1, 119, 120)
 
 
 def n5_ms(quick):
@@ -845,7 +845,97 @@ def auto_members(spec):
         for n in range(0, AUTO_MAXLEN + 1):
             out.update(prof.avoiders(data, n))
         return out
+    if kind == "pair01":
+        tab = short_table()[(0, 1)]
+        a, b = cellmask(data[0], 2), cellmask(data[1], 2)
+        return {t for t in R.perms_upto(AUTO_MAXLEN)
+                if not any((m & a) == 0 or (m & b) == 0 for m in tab[t])}
     raise ValueError(kind)
+
+
+# ---- predicates "avoid two mesh patterns on the same underlying pattern 01" ------------------
+
+SYM01 = ("id", "inverse", "rot180", "antidiagonal")      # the symmetries of the square fixing 01
+
+
+def pair01_specs(ncells=4):
+    """All unordered pairs of distinct shadings of 01 with exactly ncells cells, one
+    representative (the least) of every orbit under the four symmetries that fix 01."""
+    sh = [s for s in R.all_shadings(2) if len(s) == ncells]
+    reps = set()
+    for pair in itertools.combinations(sh, 2):
+        best = None
+        for sym in SYM01:
+            imgs = []
+            for s in pair:
+                q, img = R.apply_sym_mesh(sym, (0, 1), s)
+                assert q == (0, 1)
+                imgs.append(tuple(sorted(img)))
+            cand = tuple(sorted(imgs))
+            if best is None or cand < best:
+                best = cand
+        reps.add(best)
+    return [("pair01", r) for r in sorted(reps)]
+
+
+def cellmask(cells, k):
+    m = 0
+    for x, y in cells:
+        m |= 1 << (x * (k + 1) + y)
+    return m
+
+
+_SHORT = {}
+
+
+def short_table_chunk(shard):
+    """{pattern of length <= 2: {text: tuple of the occupied-cell sets (bit masks) of its
+    occurrences}} for the texts of one chunk; plain tabulation of the definition."""
+    n, lo, hi = shard
+    out = {(): {}, (0,): {}, (0, 1): {}, (1, 0): {}}
+    for t in R.perms(n)[lo:hi]:
+        out[()][t] = (cellmask(F.occupied_cells(t, ()), 0),)
+        out[(0,)][t] = tuple({cellmask(F.occupied_cells(t, (i,)), 1) for i in range(n)})
+        up, down = set(), set()
+        for i in range(n):
+            for j in range(i + 1, n):
+                (up if t[i] < t[j] else down).add(cellmask(F.occupied_cells(t, (i, j)), 2))
+        out[(0, 1)][t] = tuple(up)
+        out[(1, 0)][t] = tuple(down)
+    return None, out
+
+
+def short_table(ctx=None):
+    if not _SHORT:
+        shards = [(n, lo, hi) for n in range(AUTO_MAXLEN + 1)
+                  for lo, hi in chunks(len(R.perms(n)), 1260)]
+        res = ctx.pmap(short_table_chunk, shards) if ctx is not None else \
+            [short_table_chunk(sh)[1] for sh in shards]
+        for p in ((), (0,), (0, 1), (1, 0)):
+            _SHORT[p] = {}
+        for d in res:
+            for p, m in d.items():
+                _SHORT[p].update(m)
+    return _SHORT
+
+
+def describes_short(sgN, t):
+    """describes(), with the patterns of length <= 2 looked up in the tabulated occupied cells."""
+    tab = short_table()
+    rest = {}
+    for j, lvl in sgN.items():
+        if j > len(t) or not lvl:
+            continue
+        if j > 2:
+            rest[j] = lvl
+            continue
+        for p, hs in lvl.items():
+            occs = tab[p][t]
+            for H in hs:
+                hm = cellmask(H, j)
+                if any((m & hm) == 0 for m in occs):
+                    return False
+    return describes(rest, t) if rest else True
 
 
 _PROF = []
@@ -947,7 +1037,12 @@ def check_auto(part, spec, form):
     try:
         sg = call_auto(form, members)
     except NoAnswer as exc:
-        part.violation("auto_no_answer", case, {"problem": str(exc)})
+        if spec[0] == "pair01":
+            # not one of the listed predicates that are known to be answered: the property only
+            # speaks about returned descriptions
+            part.bump("auto_pairs_without_answer")
+        else:
+            part.violation("auto_no_answer", case, {"problem": str(exc)})
         return None
     except Exception as exc:  # noqa
         part.violation("auto", case, {"exception": repr(exc)})
@@ -967,11 +1062,13 @@ def check_auto(part, spec, form):
         for t in R.perms(n):
             inside = t in members
             nbad += 0 if inside else 1
-            if describes(N, t) != inside:
+            if (describes_short(N, t) if spec[0] == "pair01" else describes(N, t)) != inside:
                 part.violation("auto", case, {"description": show(N), "perm": t,
                                               "has_property": inside})
                 return N
     part.bump("auto_perms_compared", 46234)
+    if any(len(hs) > 1 for lvl in N.values() for hs in lvl.values()):
+        part.bump("auto_answers_with_several_shadings_on_one_pattern")
     return N
 
 
@@ -983,6 +1080,20 @@ def shard_auto(shard):
     if N is not None:
         part.sample({"auto_bisc": spec, "form": form, "description": show(N)}, cap=1)
     return part, (None if N is None else show(N))
+
+
+_PAIRS = []
+
+
+def shard_auto_pairs(shard):
+    lo, hi = shard
+    part = Partial()
+    for spec in _PAIRS[lo:hi]:
+        N = check_auto(part, spec, "predicate")
+        part.add(1, 0 if N is None else 1)
+        if N is not None and any(len(hs) > 1 for lvl in N.values() for hs in lvl.values()):
+            part.sample({"auto_bisc": spec, "form": "predicate", "description": show(N)}, cap=1)
+    return part, None
 
 
 def auto_plan(quick):
@@ -1036,6 +1147,10 @@ def run(ctx, only=None):
         _profiles()
         plan = auto_plan(quick)
         jobs += [("auto", "shard_auto", sh) for sh in plan]
+        if not quick:
+            short_table(ctx)
+            _PAIRS[:] = pair01_specs(4)
+            jobs += [("auto", "shard_auto_pairs", sh) for sh in chunks(len(_PAIRS), 4)]
     if want("n4"):
         table(5)
         for mask, sizes in n4_plan(quick):
@@ -1052,7 +1167,7 @@ def run(ctx, only=None):
         ctx.bounds["n5"] = ("n=5, m in %s; part of length<=4 in {nothing, everything, Av(p) for p in "
                             "S2 u S3} x S5-subsets of size %s%s"
                             % (list(n5_ms(quick)), list(n5_sizes(quick, 2)),
-                               "" if quick else "; for nothing/everything also sizes 2 and 118"))
+                               "" if quick else "; for the empty part also all 7140 subsets of size 2"))
     if want("subsets3"):
         for U in (2, 3, 4, 5):
             table(U)
@@ -1113,9 +1228,10 @@ def run(ctx, only=None):
 
     payloads = take_violations(ctx, jobs, ctx.pmap(shard_any, jobs))
     auto_res = []
-    for (fam, _, sh), pl in zip(jobs, payloads):
+    for (fam, fname, sh), pl in zip(jobs, payloads):
         if fam == "auto":
-            auto_res.append([sh[0], sh[1], pl])
+            if fname == "shard_auto":
+                auto_res.append([sh[0], sh[1], pl])
         elif fam != "private" and pl:
             entries |= pl
             if fam in ("subsets3", "classes"):
@@ -1133,6 +1249,12 @@ def run(ctx, only=None):
         ctx.bounds["auto"] = {"inputs": [[r[0], r[1]] for r in auto_res],
                               "checked_on": "every permutation of length <= 8 (46 234)",
                               "answers": answers}
+        if not quick:
+            ctx.bounds["auto"]["pair_predicates"] = (
+                "avoid (01,S1) and (01,S2): all unordered pairs of distinct shadings with exactly 4 "
+                "cells, one per orbit of the four symmetries fixing 01: %d predicates, input as "
+                "predicate, answer compared with the predicate on S<=8; without answer (n<=%d): %d"
+                % (len(_PAIRS), AUTO_MAX_N, ctx.counters.get("auto_pairs_without_answer", 0)))
         ctx.extra["auto_descriptions"] = auto_res
         section("auto", answers=answers)
     if want("private"):
@@ -1252,6 +1374,8 @@ def replay(ctx, rec):
         kind, data = case["predicate"]
         if kind == "av":
             data = tuple(tuple(p) for p in data)
+        if kind == "pair01":
+            data = tuple(tuple(tuple(c) for c in sh) for sh in data)
         check_auto(_Only(ctx, sub), (kind, data), case["form"])
     else:
         raise ValueError("unknown sub-check %r" % sub)
